@@ -167,3 +167,13 @@ def replay_ci(obl):
             out["search_witness"] = res["failures"][0]
             out["note"] = "counter-model did not replay as-is; the bounded grid found this failing input"
     return out
+
+
+def replay_lifecycle(obl):
+    """a failed recompile/__init__ obligation is replayed by the bounded history exploration on the real evaluator"""
+    r = one({"cmd": "lifecycle_diff", "maxlen": 3, "limit": 1})
+    out = {"input": None, "reproduced": bool(r["failures"]), "bound": r["bound"]}
+    if r["failures"]:
+        out["input"] = r["failures"][0]
+        out["note"] = "history found by bounded exploration of operation sequences on the real evaluator"
+    return out
